@@ -35,7 +35,7 @@ const (
 )
 
 type c18Event struct {
-	kind  byte   // S submit, R receive, U up, D down, T tick, X restart
+	kind  byte   // S submit, R receive, U up, D down, T tick, X restart, O two overlapping retry ticks
 	k     int    // R: BinarySprayBlock value, -1 = no block
 	prev  int    // R: previous node (peer id), -1 = no PreviousNodeBlock
 	peer  int    // U, D
@@ -82,7 +82,7 @@ func c18Ints(xs []int) string {
 func (e c18Event) input() string {
 	var ev string
 	switch e.kind {
-	case 'S', 'T', 'X':
+	case 'S', 'T', 'X', 'O':
 		ev = string(e.kind)
 	case 'R':
 		k, p := "-", "-"
@@ -348,6 +348,85 @@ func (ctl *c18Ctl) run(names []string, word string) {
 	}
 }
 
+// c18Overlap runs two retry ticks for the pending bundle at once, the way the cron job and a
+// PeerAppeared message do in a running daemon: the first run is parked right after SenderForBundle has
+// read the bundle's metadata, the second one starts. If the second one gets to read the metadata too
+// (nothing keeps it out), it runs to its end before the first continues: both decide on the same
+// state. If it is kept out by the lock, the first is released after a short while and the two runs
+// are simply sequential.
+func c18Overlap(w *c18World) (res string) {
+	arrived := make(chan chan struct{}, 4)
+	second := make(chan struct{}, 4)
+	var mu sync.Mutex
+	cnt := 0
+	verifSched = func(name string) {
+		if !strings.HasSuffix(name, "SenderForBundle:read") {
+			return
+		}
+		mu.Lock()
+		cnt++
+		first := cnt == 1
+		mu.Unlock()
+		if first {
+			ch := make(chan struct{})
+			arrived <- ch
+			select {
+			case <-ch:
+			case <-time.After(c18Long):
+			}
+		} else {
+			select {
+			case second <- struct{}{}:
+			default:
+			}
+		}
+	}
+	defer func() { verifSched = nil }()
+	var resMu sync.Mutex
+	tick := func(done chan struct{}) {
+		defer close(done)
+		defer func() {
+			if r := recover(); r != nil {
+				resMu.Lock()
+				res = fmt.Sprintf("panic %v", r)
+				resMu.Unlock()
+			}
+		}()
+		w.c.checkPendingBundles()
+	}
+	wait := func(ch chan struct{}) {
+		select {
+		case <-ch:
+		case <-time.After(2 * c18Long):
+			w.notes = append(w.notes, "overlap-timeout")
+		}
+	}
+	doneA, doneB := make(chan struct{}), make(chan struct{})
+	go tick(doneA)
+	var park chan struct{}
+	select {
+	case park = <-arrived:
+	case <-doneA: // the algorithm was not consulted (direct delivery, nothing pending)
+	case <-time.After(c18Long):
+		w.notes = append(w.notes, "overlap-timeout")
+	}
+	go tick(doneB)
+	if park != nil {
+		select {
+		case <-second:
+			wait(doneB)
+		case <-doneB:
+		case <-time.After(5 * c18ParkWait):
+		}
+		close(park)
+	}
+	wait(doneA)
+	wait(doneB)
+	resMu.Lock()
+	defer resMu.Unlock()
+	return res
+}
+
 // ---- running one history -----------------------------------------------------------------------
 
 func c18Run(w *c18World, h c18Hist) string {
@@ -402,14 +481,14 @@ func c18Run(w *c18World, h c18Hist) string {
 				mocks[f].mu.Unlock()
 			}
 			verifSched = func(name string) {
-				if strings.HasSuffix(name, ":read") {
+				if strings.HasSuffix(name, "ReportFailure:read") {
 					ch := make(chan struct{})
 					ctl.arrived <- ch
 					select {
 					case <-ch:
 					case <-time.After(c18Long):
 					}
-				} else if strings.HasSuffix(name, ":written") {
+				} else if strings.HasSuffix(name, "ReportFailure:written") {
 					ctl.written <- struct{}{}
 				}
 			}
@@ -444,6 +523,10 @@ func c18Run(w *c18World, h c18Hist) string {
 				up[e.peer] = false
 			case 'T':
 				w.c.checkPendingBundles()
+			case 'O':
+				if r := c18Overlap(w); r != "" {
+					return r
+				}
 			case 'X':
 				for i, m := range mocks {
 					if up[i] {
@@ -737,6 +820,24 @@ func c18Concurrent(l int, emit func(c18Hist)) {
 	}
 }
 
+// c18OverlapHists: two forward() runs for the bundle at the same time (serial phase: schedule hook).
+func c18OverlapHists(alg string, l int, emit func(c18Hist)) {
+	// both foreign peers failed so far: all copies are still here, nobody is in sent
+	emit(c18Hist{alg: alg, l: l, n: 4, evs: []c18Event{{kind: 'S'}, {kind: 'U', peer: 1, fails: []int{1}},
+		{kind: 'U', peer: 2, fails: []int{1, 2}}, {kind: 'O'}, {kind: 'T'}, {kind: 'U', peer: 3}, {kind: 'O'}}})
+	// one of the two overlapping runs meets failures
+	emit(c18Hist{alg: alg, l: l, n: 4, evs: []c18Event{{kind: 'U', peer: 1}, {kind: 'S', fails: []int{1}},
+		{kind: 'U', peer: 2, fails: []int{1, 2}}, {kind: 'O', fails: []int{2}}, {kind: 'O'}, {kind: 'U', peer: 0, fails: []int{0}},
+		{kind: 'O', fails: []int{0}}, {kind: 'O'}}})
+	// a relay
+	k := -1
+	if alg == "binary" {
+		k = l + 2
+	}
+	emit(c18Hist{alg: alg, l: l, n: 4, evs: []c18Event{{kind: 'R', k: k, prev: 3}, {kind: 'U', peer: 1, fails: []int{1}},
+		{kind: 'U', peer: 2, fails: []int{1, 2}}, {kind: 'O'}, {kind: 'O'}}})
+}
+
 // ---- replay ------------------------------------------------------------------------------------
 
 func c18ParseInts(s string) []int {
@@ -859,6 +960,11 @@ func TestVerifC18(t *testing.T) {
 
 	seed := verifSeed()
 	thorough := verifThorough()
+	// debugging aid: VERIF_C18_PHASES=parallel,forced,overlap restricts the run (default: all)
+	phase := func(name string) bool {
+		p := os.Getenv("VERIF_C18_PHASES")
+		return p == "" || strings.Contains(","+p+",", ","+name+",")
+	}
 
 	// jobs: a world (real Core, configured multiplicity L) per chunk of histories of one (algorithm, L)
 	type job struct {
@@ -935,6 +1041,9 @@ func TestVerifC18(t *testing.T) {
 	var notesMu sync.Mutex
 	var notes []string
 	sem := make(chan struct{}, 16)
+	if !phase("parallel") {
+		jobs = nil
+	}
 	for ji, j := range jobs {
 		wg.Add(1)
 		go func(ji int, j *job) {
@@ -968,7 +1077,7 @@ func TestVerifC18(t *testing.T) {
 
 	// forced interleavings: the schedule hook is a package-level variable, so these run alone
 	for l := 3; l <= 8; l++ {
-		if !thorough && l > 5 {
+		if (!thorough && l > 5) || !phase("forced") {
 			break
 		}
 		w, err := c18NewWorld(filepath.Join(base, fmt.Sprintf("conc%d", l)), "spray", l)
@@ -983,6 +1092,26 @@ func TestVerifC18(t *testing.T) {
 		write(lines)
 		w.c.Close()
 		notes = append(notes, w.notes...)
+	}
+
+	for _, alg := range []string{"spray", "binary"} {
+		for _, l := range []int{2, 3, 4, 7} {
+			if (!thorough && l == 7) || !phase("overlap") {
+				continue
+			}
+			w, err := c18NewWorld(filepath.Join(base, fmt.Sprintf("ovl-%s-%d", alg, l)), alg, l)
+			if err != nil {
+				t.Fatal(err)
+			}
+			var lines []string
+			c18OverlapHists(alg, l, func(h c18Hist) {
+				lines = append(lines, c18Run(w, h))
+				counts["overlap"]++
+			})
+			write(lines)
+			w.c.Close()
+			notes = append(notes, w.notes...)
+		}
 	}
 
 	var cs []string
